@@ -28,5 +28,8 @@ Rep == {"WHITESPACE", "COMMENT_STATEMENT", "IDENT", "DISCARD_IDENT", "U_IDENT", 
 
 \* Character alphabet for text-level enumeration (the harness maps names to characters)
 Chars == {"a", "A", "_", "0", ".", "dq", "bs", "/", "sp", "nl", "cr", "+", "-", "<", ">", "=", "|",
-          "{", "}", "(", ")", "[", "]", "#", "@", ":", ",", "!", "c2", "c4"}
+          "{", "}", "(", ")", "[", "]", "#", "@", ":", ",", "!", "c2", "c4",
+          \* a 3-byte character, and characters an editor or a file may carry invisibly: tab, byte order mark,
+          \* no-break space, line separator
+          "c3", "tab", "bom", "nbsp", "ls"}
 =============================================================================
